@@ -305,6 +305,8 @@ func main() {
 	in := flag.String("in", "", "rows exported by TLC")
 	reservedFile := flag.String("reserved", "", "reserved sets exported by TLC")
 	seed := flag.Int64("seed", 1, "")
+	mode := flag.String("mode", "codec", "codec | c09 | c10 | c13 | c11 | c06 | c07")
+	aux := flag.String("aux", "", "second input file of the mode")
 	flag.Parse()
 	out = bufio.NewWriterSize(os.Stdout, 1<<20)
 	defer out.Flush()
@@ -332,6 +334,11 @@ func main() {
 		}
 	}
 	b := &hc.Builder{C: hc.NewConc(*seed), Enums: enums}
+	switch *mode {
+	case "c09":
+		runC09(*aux, *in, *seed, b)
+		return
+	}
 	f, err := os.Open(*in)
 	if err != nil {
 		panic(err)
